@@ -296,9 +296,29 @@ def test_determinism():
     return n
 
 
+def test_fingerprints():
+    """Fingerprints and executions are pure functions of the choice string: a sample of paths of every
+    explorer scenario is fingerprinted in two separate processes (different heap layouts, different
+    hash seeds) and the outputs are compared."""
+    import os
+    import subprocess
+    outs = []
+    for hs in ("0", "7"):
+        env = dict(os.environ, PYTHONHASHSEED=hs)
+        r = subprocess.run([sys.executable, "-m", "pvmc.fpcheck"], capture_output=True, text=True, env=env,
+                           cwd=os.path.dirname(os.path.dirname(os.path.abspath(__file__))))
+        assert r.returncode == 0, r.stderr[-500:]
+        outs.append(r.stdout.splitlines())
+    assert len(outs[0]) == len(outs[1]) and len(outs[0]) > 500, (len(outs[0]), len(outs[1]))
+    bad = [(a, b) for a, b in zip(outs[0], outs[1]) if a != b]
+    assert not bad, f"fingerprint differs between processes: {bad[0]}"
+    return len(outs[0])
+
+
 def main():
     ok = True
-    for name, fn in (("ref", test_ref), ("transport", test_transport), ("determinism", test_determinism)):
+    for name, fn in (("ref", test_ref), ("transport", test_transport), ("determinism", test_determinism),
+                     ("fingerprints", test_fingerprints)):
         try:
             n = fn()
             print(f"selftest {name}: ok ({n} cases)")
